@@ -42,6 +42,17 @@ Theorem C18_failure_location : forall n els c0 f,
 Proof. exact failure_location. Qed.
 Print Assumptions C18_failure_location.
 
+(* the registers/flags offered to assertions and the ram()/ram16() callbacks, as translated from the code, are the
+   documented ones: cpu.a/x/y/sp, cpu.flags.<f> = the flag's status-register bit (carry 1 ... negative 128) when
+   set and 0 when clear; ram16 is little endian *)
+Theorem C18_cpu_symbols_documented : forall c, cpu_entries c = doc_cpu_entries c.
+Proof. exact cpu_entries_doc. Qed.
+Print Assumptions C18_cpu_symbols_documented.
+
+Theorem C18_ram_functions_documented : forall m w r, ram_fn m w r = doc_ram_fn m w r.
+Proof. exact ram_fn_doc. Qed.
+Print Assumptions C18_ram_functions_documented.
+
 (* the executable spec means the declarative one *)
 Theorem C18_spec_run_pass : forall n els c,
   spec_run n els c = SPass <->
